@@ -129,6 +129,7 @@ type Exec struct {
 	canaries  bool
 	calls     map[string]int
 	locked    map[string]bool
+	inCrit       bool
 	collectFacts bool
 	pureFacts    []Term
 	qFacts       [][]Term
